@@ -153,6 +153,12 @@ fn real_view(v: &V) -> View {
                 let mut e = $e;
                 for (a, v) in attrs { e = e.attr(leak(a), v.clone()); }
                 for (a, v) in battrs { e = e.bool_attr(leak(a), *v); }
+                // JS properties, event handlers and node refs leave no trace in server output
+                if (attrs.len() + battrs.len()) % 2 == 1 {
+                    e = e.prop("verifProp", sycamore::web::wasm_bindgen::JsValue::NULL)
+                        .on(sycamore::web::events::click, |_| {})
+                        .r#ref(sycamore::web::create_node_ref());
+                }
                 if children.is_empty() { e.into() } else { e.children(children.iter().map(real_view).collect::<Vec<View>>()).into() }
             }}; }
             match tag.as_str() {
